@@ -25,7 +25,7 @@ func (refmux) Runs(tier string) int64 {
 	if tier == "thorough" {
 		return 2000000
 	}
-	return 10000
+	return 60000
 }
 
 func (refmux) Meta() core.EngineMeta {
